@@ -71,6 +71,24 @@ def stock_make_defs(extra_make_args=()):
     return defs, line
 
 
+def make_compile_lines(make_args=(), env_extra=None, targets=("libeav.so", "libeav.a")):
+    """Every compile command (`... -c <file>.c`) the stock Makefile would run for the shared AND the static library (dry run)."""
+    env = dict(os.environ)
+    for m in OPTION_MACROS:
+        env.pop(m, None)
+    if env_extra:
+        env.update(env_extra)
+    p = subprocess.run(["make", "-n", "-B", "--no-print-directory"] + list(targets) + list(make_args), cwd=REPO, stdout=subprocess.PIPE,
+                       stderr=subprocess.STDOUT, env=env)
+    out = p.stdout.decode("utf-8", "replace")
+    lines = []
+    for l in out.splitlines():
+        m = re.search(r"-c\s+(\S+\.c)\b", l)
+        if m and re.match(r"\s*\S*(cc|gcc|clang)\b", l.strip().split()[0] if l.strip() else ""):
+            lines.append((m.group(1), re.findall(r"(?<!\S)-D(\S+)", l), l))
+    return lines
+
+
 def stock_option_macros():
     """Which of the three documented option macros the stock Makefile turns on by default."""
     defs, _ = stock_make_defs()
